@@ -32,17 +32,17 @@ CHECKS = {
    design='4/C16'),
  'C05': dict(
    technique='Coq proof by induction over fuel and over the nested expression type of the soundness of the simplifier model on a well-formed fragment (width, value under every valuation, well-formedness preserved) + exact-tree correspondence of the model with expr_simp; exhaustive valuation search outside the fragment',
-   text=("Theorem (props/C05.v, closed): for EVERY tree of fragments 1-5 (constants, identifiers, memory cells with any well-formed address, conditionals, n-ary + * ^ & | on operands of one width, unary/binary minus, slices, the shifts << >> a>> on a value and a count of any widths, == and parity, and concatenations (non-empty, non-overlapping slots inside [0,64] with distinct starts, one of them 0; constant pieces at least as wide as their slot); widths at most 64), every fuel and every result of Simp.simp: "
+   text=("Theorem (props/C05.v, closed): for EVERY tree of the well-formedness predicate (constants, identifiers, memory cells with any well-formed address, conditionals, n-ary + * ^ & | on operands of one width, unary/binary minus, slices, the shifts << >> a>> on a value and a count of any widths, == and parity, the rotations <<< >>> on a value of width 8/16/32/64 and an 8-bit count, and concatenations (non-empty, non-overlapping slots inside [0,64] with distinct starts, one of them 0; constant pieces at least as wide as their slot); widths at most 64), every fuel and every result of Simp.simp: "
          "the result is well formed, has the same width and the same value under every valuation of identifiers, every memory and every operator interpretation — through flattening, canonical sorting, constant folding via the modint classes, A op 0, singleton, "
-         "duplicate/cancelling-pair removal, all minus rules, the shift rules (constant folds, count 0, (X & m) >> c), the == rules (constant fold, (X | m) == 0), the parity fold, the concatenation rules (merge_sliceto_slice: classification, masking and merging of adjacent constants, merging of adjacent slices of one source, sorting by start — ComposeProofs.v proves that the OR of the fields, the set of starts, the extent and the per-bit occupancy are preserved; the single-slot rule; a slice of a concatenation), the conditional rules, the four slice rules, the bottom-up visit and the fixpoint loop. NOT yet proved: the rotate rules; termination is by explicit fuel (OutOfFuel never observed). "
+         "duplicate/cancelling-pair removal, all minus rules, the shift rules (constant folds, count 0, (X & m) >> c), the == rules (constant fold, (X | m) == 0), the parity fold, the rotation rules (count 0, count = width, two rotations in a row merged by adding/subtracting their counts modulo 2^8), the concatenation rules (merge_sliceto_slice: classification, masking and merging of adjacent constants, merging of adjacent slices of one source, sorting by start — ComposeProofs.v proves that the OR of the fields, the set of starts, the extent and the per-bit occupancy are preserved; the single-slot rule; a slice of a concatenation), the conditional rules, the four slice rules, the bottom-up visit and the fixpoint loop. Every rewriting rule of _expr_simp and merge_sliceto_slice is covered; not covered: trees outside the predicate (operands of different widths, other rotation count widths, overlapping slots); termination is by explicit fuel (OutOfFuel never observed). "
          "Model Simp.v mirrors _expr_simp rule for rule; tie: exact result trees on rule-targeted families (one per rule and side condition, permuted, embedded) and typed random trees; on any disagreement width and value of input vs output are evaluated "
          "under all 2^16 valuations of two 8-bit variables or boundary cross-products. Independently of the model, every result that differs from its input is audited: width, and value under 6 (quick) / 16 (thorough) valuations, in one batch through the extracted Expr.eval."),
-   note=TB + "Modelled, not verified: Simp.v is a hand transcription of expression_helper.py (tied by exact-tree correspondence on every run). Outside fragments 1-5 the property is decided by the tie + search, below proof strength.",
+   note=TB + "Modelled, not verified: Simp.v is a hand transcription of expression_helper.py (tied by exact-tree correspondence on every run). Outside the predicate the property is decided by the tie + search, below proof strength.",
    design='4/C05', category='other'),
  'C13': dict(
    technique='Coq theorems on the simplifier model (idempotence on well-formed trees: the result is a deep normal form and a second pass returns the identical tree; root-level fixpoint of the rewriting step for all trees, sort is a permutation, order-independence of the value, fuel independence) + exact-tree correspondence under several PYTHONHASHSEED values; idempotence and order-insensitivity evaluated on groups of permuted/re-associated spellings',
-   text=("The model (a pure function: no hash-order input) is compared with expr_simp under PYTHONHASHSEED 0,1,2 (quick) / 0..15 (thorough) on groups of expressions differing only by order/nesting of "
-         "+ * ^ & | operands (rule families, random trees, multisets of atoms, deep twins that differ only far down), each simplified once and twice. Theorems (props/C13.v, closed): for ALL trees every result of the simplifier is a fixpoint of its rewriting step at the root (one more _expr_simp returns an == expression); on well-formed trees (fragments 1-5 of C05, concatenations included, identifier predicate determining is_term) the result is a DEEP normal form (every node is returned unchanged by the rewriting step) and simplifying it again returns the IDENTICAL tree whatever the fuel — by induction over fuel, the traversal and the loop, using that == is Leibniz equality on well-formed trees; "
+   text=("The model (a pure function: no hash-order input) is compared with expr_simp under PYTHONHASHSEED 0,1,2 (quick) / 0..7 (thorough) on groups of expressions differing only by order/nesting of "
+         "+ * ^ & | operands (rule families, random trees, multisets of atoms, deep twins that differ only far down), each simplified once and twice. Theorems (props/C13.v, closed): for ALL trees every result of the simplifier is a fixpoint of its rewriting step at the root (one more _expr_simp returns an == expression); on well-formed trees (the whole C05 predicate, concatenations and rotations included, identifier predicate determining is_term) the result is a DEEP normal form (every node is returned unchanged by the rewriting step) and simplifying it again returns the IDENTICAL tree whatever the fuel — by induction over fuel, the traversal and the loop, using that == is Leibniz equality on well-formed trees; "
          "the canonical operand order is a permutation of the input; on well-formed trees operand order does not change the value of the result; successful runs agree whatever their fuel. "
          "NOT proved: idempotence outside the well-formed fragment (concatenations, rotates, ==, parity, ill-typed trees), syntactic identity of the results for permuted/re-associated operands, hash-seed independence (implementation facts): decided by the runs."),
    note=TB + "Cross-process behaviour (hash seeds) is a runtime fact outside Gallina: exercised by running the implementation under each seed. dump_mem() ordering (ExprMem.__lt__ compares id()) is not covered.",
@@ -51,9 +51,9 @@ CHECKS = {
    technique='Coq proof by induction over fuel (through the simplifier theorem of C05) that the model of eval_expr is sound substitution on register-only states and fragment-1 expressions; Gallina model of eval_abs.eval_expr (all seven node kinds) tied by exact-tree correspondence',
    text=("Model EvalAbs.v mirrors eval_expr / eval_ExprOp+deal_op / eval_ExprCond / eval_ExprSlice / eval_ExprCompose / eval_ExprMem. Tie: exact result trees on (state, expression) pairs mixing constant, "
          "symbolic and absent bindings, all operators at arity 2..5 with constant operands, conditions/concatenations whose parts become constants; independently of the model, every result is audited against the property itself (width; value of the result = value of the argument under the substituted valuation, 4/12 valuations per case, states without bound memory cells). "
-         "Theorem (props/C06.v, closed): for register-only states whose bindings map non-terminal identifiers to well-formed expressions of their width, every expression of fragments 1-4 (slices, shifts, == and parity included, shift constants evaluated through deal_op's saturating count) conforming to a name signature and every result of eval_expr: the result is well formed, "
+         "Theorem (props/C06.v, closed): for register-only states whose bindings map non-terminal identifiers to well-formed expressions of their width, every expression of the C05 predicate without concatenations (slices, shifts, rotations, == and parity included, shift constants evaluated through deal_op's saturating count) conforming to a name signature and every result of eval_expr: the result is well formed, "
          "has the argument's width, and in EVERY concrete state, memory and operator interpretation evaluates to the argument's value in the state where each bound identifier takes its binding's value (terminal identifiers untouched, memory read at the substituted address). "
-         "Not proved: states with written memory cells, concatenations (the eval_expr theorem is stated for the concatenation-free fragment, ac = false: eval_ExprCompose re-evaluates an already evaluated condition, which the implementation guards with is_eval object marks the model does not have — model and code agree only when binding values do not mention bound identifiers, as in the library's own machine and in the generators), rotates (decided by the tie)."),
+         "Not proved: states with written memory cells, concatenations (the eval_expr theorem is stated for the concatenation-free part of the predicate, ac = false: eval_ExprCompose re-evaluates an already evaluated condition, which the implementation guards with is_eval object marks the model does not have — model and code agree only when binding values do not mention bound identifiers, as in the library's own machine and in the generators) (decided by the tie and the audit)."),
    note=TB + "Modelled, not verified: EvalAbs.v. States follow the init_* discipline (bindings over free symbols, already evaluated); is_eval/is_term flags and eval_cache are outside this model (C12).",
    design='4/C06', category='other'),
  'C07': dict(
